@@ -26,11 +26,85 @@ constexpr bool copyable = std::is_copy_constructible_v<T>;
 template <typename T>
 constexpr bool sv_move_assignable = std::is_copy_assignable_v<T>;
 
+// ---- round 2: further element types (directions 1 and 3) -------------------------------------------------------
+// Arg2: non-trivial element with constructors of 0, 1 and 2 arguments (emplace/emplace_back arities); lifetimes are
+// tracked through its base.  Agg2: trivial aggregate with two members, T(a) and T(a,b) are C++20 parenthesised
+// aggregate initialisation (the trivial-storage twin).  ThrowMove: move constructor declared noexcept(false), never
+// throws.  OverT / OverN: alignas(32) elements, trivial and non-trivial storage.
+using mc::value_of; // the overloads declared below would otherwise hide the ones of mc:: inside this namespace
+struct Arg2 : mc::Tracked<mc::copy_move> {
+    using Base = mc::Tracked<mc::copy_move>;
+    Arg2() = default;
+    explicit(false) Arg2(int a) : Base(a) { }
+    Arg2(int a, int b) : Base(a + 4 * b) { }
+};
+struct Agg2 {
+    int v;
+    int w;
+    friend bool operator==(Agg2 const& a, Agg2 const& b) { return a.v + 4 * a.w == b.v + 4 * b.w; }
+    friend bool operator<(Agg2 const& a, Agg2 const& b) { return a.v + 4 * a.w < b.v + 4 * b.w; }
+};
+inline int value_of(Agg2 const& x) { return x.v + 4 * x.w; }
+struct ThrowMove : mc::Tracked<mc::copy_move> {
+    using Base = mc::Tracked<mc::copy_move>;
+    ThrowMove() = default;
+    explicit(false) ThrowMove(int a) : Base(a) { }
+    ThrowMove(ThrowMove const&) = default;
+    ThrowMove(ThrowMove&& o) noexcept(false) : Base(static_cast<Base&&>(o)) { }
+    auto operator=(ThrowMove const&) -> ThrowMove& = default;
+    auto operator=(ThrowMove&& o) noexcept(false) -> ThrowMove&
+    {
+        Base::operator=(static_cast<Base&&>(o));
+        return *this;
+    }
+};
+struct alignas(32) OverT {
+    int v;
+    friend bool operator==(OverT const& a, OverT const& b) { return a.v == b.v; }
+    friend bool operator<(OverT const& a, OverT const& b) { return a.v < b.v; }
+};
+inline int value_of(OverT const& x) { return x.v; }
+struct alignas(32) OverN : mc::Tracked<mc::copy_move> {
+    using Base = mc::Tracked<mc::copy_move>;
+    OverN() = default;
+    explicit(false) OverN(int a) : Base(a) { }
+};
+static_assert(std::is_trivial_v<Agg2> && std::is_trivial_v<OverT> && !std::is_trivial_v<Arg2> && !std::is_trivial_v<OverN>);
+static_assert(alignof(OverT) == 32 && alignof(OverN) == 32 && sizeof(OverN) == 32);
+static_assert(!std::is_nothrow_move_constructible_v<ThrowMove> && std::is_move_constructible_v<ThrowMove>);
+
+} // namespace
+namespace mc {
+template <>
+inline constexpr bool is_tracked_v<Arg2> = true;
+template <>
+inline constexpr bool is_tracked_v<ThrowMove> = true;
+template <>
+inline constexpr bool is_tracked_v<OverN> = true;
+} // namespace mc
+namespace {
+
 template <typename T>
 std::string tname()
 {
     if constexpr (std::is_same_v<T, int>) {
         return "int";
+    } else if constexpr (std::is_same_v<T, unsigned char>) {
+        return "unsigned char";
+    } else if constexpr (std::is_same_v<T, bool>) {
+        return "bool";
+    } else if constexpr (std::is_same_v<T, Arg2>) {
+        return "Arg2<ctor 0/1/2 args>";
+    } else if constexpr (std::is_same_v<T, Agg2>) {
+        return "Agg2<trivial aggregate>";
+    } else if constexpr (std::is_same_v<T, ThrowMove>) {
+        return "ThrowMove<noexcept(false) move>";
+    } else if constexpr (std::is_same_v<T, OverT>) {
+        return "OverT<alignas(32) trivial>";
+    } else if constexpr (std::is_same_v<T, OverN>) {
+        return "OverN<alignas(32) non-trivial>";
+    } else if constexpr (std::is_same_v<T, mc::Tracked<mc::rule3>>) {
+        return "Tracked<rule3>";
     } else if constexpr (std::is_same_v<T, mc::Tracked<mc::copy_move>>) {
         return "Tracked<copy+move>";
     } else if constexpr (std::is_same_v<T, mc::Tracked<mc::move_only>>) {
@@ -41,6 +115,39 @@ std::string tname()
         return "Tracked<copy-only>";
     }
 }
+
+// exact-size source block for external ranges: mc::GuardedBlock, except for over-aligned element types (malloc only
+// guarantees 16 bytes; a misaligned SOURCE would be the harness' own undefined behaviour) - those get an aligned
+// allocation of exactly n elements (ASan still traps the first byte behind it; no canaries in the other flavours)
+template <typename T, bool Over = (alignof(T) > 16)>
+struct SourceBlock : mc::GuardedBlock<T> {
+    using mc::GuardedBlock<T>::GuardedBlock;
+};
+template <typename T>
+struct SourceBlock<T, true> {
+    T* p{nullptr};
+    std::size_t n{0};
+    explicit SourceBlock(std::size_t count) : n(count)
+    {
+        p = static_cast<T*>(std::aligned_alloc(alignof(T), (count == 0 ? 1 : count) * sizeof(T)));
+        std::memset(static_cast<void*>(p), 0xCD, (count == 0 ? 1 : count) * sizeof(T));
+    }
+    SourceBlock(SourceBlock const&)            = delete;
+    SourceBlock& operator=(SourceBlock const&) = delete;
+    ~SourceBlock() { std::free(p); }
+    T* data() { return p; }
+    std::size_t size() const { return n; }
+    bool intact() const { return true; }
+};
+
+// element type of the external source range of the *converting* range forms (insert/assign/ctor from pointers to
+// another type): long for the arithmetic elements, int for the class types (every one is constructible from int)
+template <typename T>
+using conv_source_t = std::conditional_t<std::is_same_v<T, int>, long, int>;
+
+// two-argument construction exists (Arg2, Agg2)
+template <typename T>
+constexpr bool two_arg = std::is_constructible_v<T, int, int> && !std::is_arithmetic_v<T>;
 
 // drains the lifetime registry into C03 violations and compares the live count inside the
 // owner's storage with the model's element count
@@ -94,6 +201,35 @@ enum Kind : int {
     unchecked_push_back_r,
     unchecked_emplace_back_k,
     reinit_value,    // replace the object by a value-initialised one: V{}
+    // ---- round 2 ----
+    emplace_back_0,        // emplace_back()
+    emplace_back_2,        // emplace_back(x, y)
+    emplace_back_own,      // emplace_back(v[a])
+    emplace_0,             // emplace(pos)
+    emplace_2,             // emplace(pos, x, y)
+    emplace_own,           // emplace(pos, v[b])
+    resize_v_own,          // resize(n, v[b])
+    insert_range_mut,      // insert(pos, T*, T*)  (pointers to non-const)
+    insert_range_conv,     // insert(pos, U const*, U const*), U != T convertible
+    assign_range_conv,
+    ctor_range_conv,
+    move_insert_k,         // move_insert(pos, T*, T*) (tetl extension: the rvalue twin of insert(pos,first,last))
+    ctor_c_array_n,        // static_vector(c_array<T,S>&&), S = 1, N;  a = S
+    ctor_empty_c_array,    // static_vector(empty_c_array{})
+    write_k,               // assignment through front()/back()/operator[]/iterator/reverse iterator/data(): a = accessor, b = index, c = value
+    try_push_back_own,     // inplace_vector: try_push_back(v[a])
+    try_emplace_back_own,
+    try_emplace_back_0,
+    try_emplace_back_2,
+    unchecked_push_back_own,
+    unchecked_emplace_back_own,
+    unchecked_emplace_back_0,
+    unchecked_emplace_back_2,
+    stack_ctor_copy,       // stack(Container const&): a = pool index
+    stack_ctor_move,       // stack(Container&&)
+    stack_push_top,        // push(top())
+    stack_emplace_top,     // emplace(top())
+    bulk_fill,             // seed helper for capacity 65535/65536: a x unchecked_emplace_back(1 + i % 2), compared once at the end
     // binary
     swap_member,
     swap_free,
@@ -110,13 +246,27 @@ char const* kind_name(int k)
         "assign(n,v)", "assign(first,last)", "clear", "operator=(const&) self", "swap(self)", "etl::swap(self)", "etl::erase",
         "etl::erase_if", "copy-construct", "move-construct", "ctor(n)", "ctor(n,v)", "ctor(first,last)", "ctor(c_array)",
         "try_push_back(const&)", "try_push_back(&&)", "try_emplace_back", "unchecked_push_back(const&)", "unchecked_push_back(&&)",
-        "unchecked_emplace_back", "value-initialise V{}", "swap(other)", "etl::swap(a,b)", "operator=(const&)", "operator=(&&)", "relational operators"};
+        "unchecked_emplace_back", "value-initialise V{}",
+        "emplace_back()", "emplace_back(x,y)", "emplace_back(own element)", "emplace(pos)", "emplace(pos,x,y)", "emplace(pos,own element)",
+        "resize(n,own element)", "insert(pos,T*,T*)", "insert(pos,U const*,U const*)", "assign(U const*,U const*)", "ctor(U const*,U const*)",
+        "move_insert(pos,first,last)", "ctor(c_array<S>)", "ctor(empty_c_array)", "write through reference",
+        "try_push_back(own element)", "try_emplace_back(own element)", "try_emplace_back()", "try_emplace_back(x,y)",
+        "unchecked_push_back(own element)", "unchecked_emplace_back(own element)", "unchecked_emplace_back()", "unchecked_emplace_back(x,y)",
+        "stack(Container const&)", "stack(Container&&)", "push(top())", "emplace(top())", "n x unchecked_emplace_back", "swap(other)", "etl::swap(a,b)", "operator=(const&)", "operator=(&&)", "relational operators"};
+    static_assert(sizeof names / sizeof names[0] == relational + 1);
     return names[k];
 }
 
 struct Action {
     int k, a, b, c;
 };
+
+// accessors of the write-through action (write_k): a = accessor
+inline char const* accessor_name(int acc)
+{
+    static char const* names[] = {"front()", "back()", "operator[]", "begin()+i", "rbegin()+i", "data()+i"};
+    return names[acc];
+}
 
 std::string show_action(Action const& x) { return cat(kind_name(x.k), "(", x.a, ",", x.b, ",", x.c, ")"); }
 
@@ -166,6 +316,9 @@ struct StaticVectorSys {
     using M = std::vector<int>;
     using Action = ::Action;
     static constexpr bool trivial = std::is_trivially_copyable_v<T>;
+    // the raw object bytes are part of the state key only if the element type has no padding (padding bytes of
+    // temporaries are indeterminate and would make the state space nondeterministic)
+    static constexpr bool raw_key = trivial && std::has_unique_object_representations_v<T>;
 
     struct State {
         alignas(alignof(V) > 16 ? alignof(V) : 16) unsigned char buf[sizeof(V) + 32];
@@ -189,12 +342,39 @@ struct StaticVectorSys {
     };
 
     int pool_len;
-    explicit StaticVectorSys(int poolLen) : pool_len(poolLen) { }
+    bool thin{false}; // round 2 (direction 4): reduced argument sets, for longer histories from the boundary seeds
+    explicit StaticVectorSys(int poolLen, bool thinMenu = false) : pool_len(poolLen), thin(thinMenu) { }
 
-    std::string name() const { return cat("static_vector<", tname<T>(), ",", N, ">"); }
+    // thin menu: positions/counts {0, size, N-size, N}, indices and inner counts additionally 1, element value 1 only,
+    // source ranges {} and {1}; every action kind stays in the menu
+    static bool thin_keep(Action const& x, int s, int n)
+    {
+        auto in0 = [&](int v) { return v == 0 || v == s || v == n - s || v == n; };
+        auto in1 = [&](int v) { return in0(v) || v == 1; };
+        switch (x.k) {
+        case push_back_l:
+        case push_back_r:
+        case emplace_back_k:
+        case free_erase:
+        case free_erase_if:
+        case emplace_back_2: return x.a == 1;
+        case ctor_c_array: return x.a == 1 && x.b == 2;
+        case ctor_c_array_n: return in1(x.b);
+        case write_k: return (x.b == 0 || x.b == s - 1) && x.c == 1;
+        case resize_k:
+        case resize_v: return (in0(x.a) || x.a == s - 1 || x.a == s + 1) && in1(x.b);
+        default: return in0(x.a) && in1(x.b) && in1(x.c);
+        }
+    }
+
+    std::string name() const { return cat("static_vector<", tname<T>(), ",", N, ">", thin ? " (thin menu)" : ""); }
     std::string family() const { return "static_vector"; }
     std::string show(Action const& a) const { return show_action(a); }
-    std::string subject(Action const& a) const { return cat("static_vector::", kind_name(a.k)); }
+    std::string subject(Action const& a) const
+    {
+        if (a.k == write_k) { return cat("static_vector::", accessor_name(a.a), " (written through)"); }
+        return cat("static_vector::", kind_name(a.k));
+    }
 
     void unary(State const& st, std::vector<Action>& out) const
     {
@@ -285,6 +465,88 @@ struct StaticVectorSys {
                 for (int y = 1; y <= K; ++y) { out.push_back({ctor_c_array, x, y, 0}); }
             }
         }
+        unary_round2(st, out);
+        if (thin) {
+            std::vector<Action> kept;
+            for (auto const& x : out) {
+                if (thin_keep(x, s, n)) { kept.push_back(x); }
+            }
+            out.swap(kept);
+        }
+    }
+
+    // round 2: overloads, arities, aliasing arguments and write-through accessors that the first menu did not contain
+    void unary_round2(State const& st, std::vector<Action>& out) const
+    {
+        int const s       = int(st.m.size());
+        int const n       = int(N);
+        bool const sparse = N > 8;
+        // boundary capacities (sparse menus): three-point sets {first, middle, last} for the round-2 actions
+        auto const pts = [&](int lo, int hi) {
+            if (!sparse || hi - lo <= 6) { return span_of(lo, hi, sparse); }
+            return std::vector<int>{lo, (lo + hi) / 2, hi};
+        };
+        auto const elems  = s > 0 ? pts(0, s - 1) : std::vector<int>{};
+        auto const& pl    = pool(K, pool_len);
+        if (s < n) {
+            out.push_back({emplace_back_0, 0, 0, 0});
+            if constexpr (two_arg<T>) {
+                for (int x = 1; x <= K; ++x) { out.push_back({emplace_back_2, x, 1, 0}); }
+            }
+            if constexpr (copyable<T>) {
+                for (int i : elems) { out.push_back({emplace_back_own, i, 0, 0}); }
+            }
+            for (int p : pts(0, s)) {
+                out.push_back({emplace_0, p, 0, 0});
+                if constexpr (two_arg<T>) {
+                    for (int x = 1; x <= K; ++x) { out.push_back({emplace_2, p, x, 1}); }
+                }
+                if constexpr (copyable<T>) {
+                    for (int i : elems) { out.push_back({emplace_own, p, i, 0}); }
+                }
+            }
+        }
+        if constexpr (copyable<T>) {
+            for (int cnt : pts(0, n)) {
+                for (int i : elems) { out.push_back({resize_v_own, cnt, i, 0}); }
+            }
+        }
+        for (int p : pts(0, s)) {
+            for (int i = 0; i < int(pl.size()); ++i) {
+                if (int(pl[std::size_t(i)].size()) > n - s) { continue; }
+                if constexpr (copyable<T>) { out.push_back({insert_range_mut, p, i, 0}); }
+                out.push_back({insert_range_conv, p, i, 0});
+                out.push_back({move_insert_k, p, i, 0});
+            }
+        }
+        for (int i = 0; i < int(pl.size()); ++i) {
+            if (int(pl[std::size_t(i)].size()) <= n) {
+                out.push_back({assign_range_conv, i, 0, 0});
+                out.push_back({ctor_range_conv, i, 0, 0});
+            }
+        }
+        out.push_back({ctor_empty_c_array, 0, 0, 0});
+        if constexpr (N >= 1) {
+            for (int x = 1; x <= K; ++x) { out.push_back({ctor_c_array_n, 1, x, 0}); }
+            if constexpr (N >= 3 && N <= 8) {
+                for (int x = 0; x < K; ++x) { out.push_back({ctor_c_array_n, n, x, 0}); }
+            }
+        }
+        if (s > 0) {
+            for (int val = 1; val <= K; ++val) {
+                out.push_back({write_k, 0, 0, val});
+                out.push_back({write_k, 1, s - 1, val});
+                for (int acc = 2; acc <= 5; ++acc) {
+                    for (int i : elems) { out.push_back({write_k, acc, i, val}); }
+                }
+            }
+        }
+    }
+
+    template <std::size_t... I>
+    static V* construct_from_c_array(void* where, int shift, std::index_sequence<I...>)
+    {
+        return ::new (where) V(etl::c_array<T, sizeof...(I)>{T(1 + int((I + std::size_t(shift)) % std::size_t(K)))...});
     }
 
     void binary(std::vector<Action>& out) const
@@ -417,7 +679,7 @@ struct StaticVectorSys {
             if constexpr (copyable<T>) {
                 auto const& src = pool(K, pool_len)[std::size_t(a.b)];
                 {
-                    mc::GuardedBlock<T> blk(src.size());
+                    SourceBlock<T> blk(src.size());
                     for (std::size_t i = 0; i < src.size(); ++i) { ::new (static_cast<void*>(blk.data() + i)) T(src[i]); }
                     T const* f = blk.data();
                     T const* l = blk.data() + src.size();
@@ -473,7 +735,7 @@ struct StaticVectorSys {
             if constexpr (copyable<T>) {
                 auto const& src = pool(K, pool_len)[std::size_t(a.a)];
                 {
-                    mc::GuardedBlock<T> blk(src.size());
+                    SourceBlock<T> blk(src.size());
                     for (std::size_t i = 0; i < src.size(); ++i) { ::new (static_cast<void*>(blk.data() + i)) T(src[i]); }
                     T const* f = blk.data();
                     T const* l = blk.data() + src.size();
@@ -597,7 +859,7 @@ struct StaticVectorSys {
         case ctor_range: {
             if constexpr (copyable<T>) {
                 auto const& src = pool(K, pool_len)[std::size_t(a.a)];
-                mc::GuardedBlock<T> blk(src.size());
+                SourceBlock<T> blk(src.size());
                 for (std::size_t i = 0; i < src.size(); ++i) { ::new (static_cast<void*>(blk.data() + i)) T(src[i]); }
                 T const* f = blk.data();
                 T const* l = blk.data() + src.size();
@@ -616,6 +878,183 @@ struct StaticVectorSys {
                 s.v = ::new (static_cast<void*>(s.buf)) V(etl::c_array<T, 2>{T(a.a), T(a.b)});
                 m   = M{a.a, a.b};
             }
+            break;
+        }
+        // ---------------- round 2 ----------------
+        case emplace_back_0: {
+            v.emplace_back();
+            m.emplace_back();
+            break;
+        }
+        case emplace_back_2: {
+            if constexpr (two_arg<T>) {
+                v.emplace_back(a.a, a.b);
+                m.push_back(a.a + 4 * a.b);
+            }
+            break;
+        }
+        case emplace_back_own: {
+            if constexpr (copyable<T>) {
+                int const val = m[std::size_t(a.a)]; // copy of the aliased value, taken before the call
+                v.emplace_back(v[std::size_t(a.a)]);
+                m.push_back(val);
+            }
+            break;
+        }
+        case emplace_0: {
+            auto it  = v.emplace(v.begin() + a.a);
+            ri       = it - v.begin();
+            auto mit = m.emplace(m.begin() + a.a);
+            rm       = mit - m.begin();
+            break;
+        }
+        case emplace_2: {
+            if constexpr (two_arg<T>) {
+                auto it  = v.emplace(v.begin() + a.a, a.b, a.c);
+                ri       = it - v.begin();
+                auto mit = m.insert(m.begin() + a.a, a.b + 4 * a.c);
+                rm       = mit - m.begin();
+            }
+            break;
+        }
+        case emplace_own: {
+            if constexpr (copyable<T>) {
+                int const val = m[std::size_t(a.b)];
+                auto it       = v.emplace(v.begin() + a.a, v[std::size_t(a.b)]);
+                ri            = it - v.begin();
+                auto mit      = m.insert(m.begin() + a.a, val);
+                rm            = mit - m.begin();
+            }
+            break;
+        }
+        case resize_v_own: {
+            if constexpr (copyable<T>) {
+                int const val = m[std::size_t(a.b)];
+                v.resize(std::size_t(a.a), v[std::size_t(a.b)]);
+                m.resize(std::size_t(a.a), val);
+            }
+            break;
+        }
+        case insert_range_mut:
+        case move_insert_k: {
+            {
+                auto const& src = pool(K, pool_len)[std::size_t(a.b)];
+                {
+                    SourceBlock<T> blk(src.size());
+                    for (std::size_t i = 0; i < src.size(); ++i) { ::new (static_cast<void*>(blk.data() + i)) T(src[i]); }
+                    T* f = blk.data();
+                    T* l = blk.data() + src.size();
+                    if (a.k == move_insert_k) {
+                        auto it = v.move_insert(v.begin() + a.a, f, l);
+                        ri      = it - v.begin();
+                        // the source elements are moved-from: valid but unspecified, only destroyed here
+                        for (std::size_t i = 0; i < src.size(); ++i) { blk.data()[i].~T(); }
+                    } else {
+                        if constexpr (copyable<T>) {
+                            auto it = v.insert(v.begin() + a.a, f, l);
+                            ri      = it - v.begin();
+                        }
+                        for (std::size_t i = 0; i < src.size(); ++i) {
+                            if (value_of(blk.data()[i]) != src[i]) { cx.fail("C01", subj, "source-modified", "insert(pos,first,last) changed its source range"); }
+                            blk.data()[i].~T();
+                        }
+                    }
+                    if (!blk.intact()) { cx.fail("C02", subj, "canary", "wrote outside the source range"); }
+                }
+                auto mit = m.insert(m.begin() + a.a, src.begin(), src.end());
+                rm       = mit - m.begin();
+            }
+            break;
+        }
+        case insert_range_conv:
+        case assign_range_conv:
+        case ctor_range_conv: {
+            using S = conv_source_t<T>;
+            if constexpr (etl::is_constructible_v<T, S const&>) {
+                auto const& src = pool(K, pool_len)[std::size_t(a.k == insert_range_conv ? a.b : a.a)];
+                {
+                    mc::GuardedBlock<S> blk(src.size());
+                    for (std::size_t i = 0; i < src.size(); ++i) { blk.data()[i] = S(src[i]); }
+                    S const* f = blk.data();
+                    S const* l = blk.data() + src.size();
+                    if (a.k == insert_range_conv) {
+                        auto it = v.insert(v.begin() + a.a, f, l);
+                        ri      = it - v.begin();
+                    } else if (a.k == assign_range_conv) {
+                        v.assign(f, l);
+                    } else {
+                        v.~V();
+                        std::memset(s.buf, 0xAA, sizeof s.buf);
+                        s.v = ::new (static_cast<void*>(s.buf)) V(f, l);
+                    }
+                    for (std::size_t i = 0; i < src.size(); ++i) {
+                        if (blk.data()[i] != S(src[i])) { cx.fail("C01", subj, "source-modified", "the source range was changed"); }
+                    }
+                    if (!blk.intact()) { cx.fail("C02", subj, "canary", "wrote outside the source range"); }
+                }
+                if (a.k == insert_range_conv) {
+                    auto mit = m.insert(m.begin() + a.a, src.begin(), src.end());
+                    rm       = mit - m.begin();
+                } else if (a.k == assign_range_conv) {
+                    m.assign(src.begin(), src.end());
+                } else {
+                    m = M(src.begin(), src.end());
+                }
+            }
+            break;
+        }
+        case ctor_empty_c_array: {
+            v.~V();
+            std::memset(s.buf, 0xAA, sizeof s.buf);
+            s.v = ::new (static_cast<void*>(s.buf)) V(etl::empty_c_array{});
+            m.clear();
+            break;
+        }
+        case ctor_c_array_n: {
+            if constexpr (N >= 1) {
+                v.~V();
+                std::memset(s.buf, 0xAA, sizeof s.buf);
+                if (a.a == 1) {
+                    s.v = ::new (static_cast<void*>(s.buf)) V(etl::c_array<T, 1>{T(a.b)});
+                    m   = M{a.b};
+                } else {
+                    if constexpr (N >= 3 && N <= 8) {
+                        s.v = construct_from_c_array(static_cast<void*>(s.buf), a.b, std::make_index_sequence<N>{});
+                        m.clear();
+                        for (std::size_t i = 0; i < N; ++i) { m.push_back(1 + int((i + std::size_t(a.b)) % std::size_t(K))); }
+                    }
+                }
+            }
+            break;
+        }
+        case write_k: {
+            std::size_t const i = std::size_t(a.b);
+            T* target           = nullptr;
+            switch (a.a) {
+            case 0: target = &v.front(); break;
+            case 1: target = &v.back(); break;
+            case 2: target = &v[i]; break;
+            case 3: {
+                auto it = v.begin();
+                it += a.b;
+                target = &*it;
+                break;
+            }
+            case 4: {
+                auto it = v.rbegin();
+                for (std::size_t j = i + 1; j < m.size(); ++j) { ++it; }
+                target = &*it;
+                break;
+            }
+            default: target = v.data() + i; break;
+            }
+            // the reference must name element i (nothing is written through a reference that points elsewhere)
+            if (target != v.data() + i) {
+                cx.fail("C01", subj, "reference", cat("the returned reference is not element ", i, " of ", m.size()));
+                return;
+            }
+            *target = T(a.c);
+            m[i]    = a.c;
             break;
         }
         case swap_member:
@@ -694,11 +1133,34 @@ struct StaticVectorSys {
         cx.eq("C01", subj, "iterators", "end()-begin()", std::size_t(cv.end() - cv.begin()), m.size());
         cx.eq("C01", subj, "iterators", "cend()-cbegin()", std::size_t(cv.cend() - cv.cbegin()), m.size());
         cx.eq("C01", subj, "iterators", "nonconst end()-begin()", std::size_t(v.end() - v.begin()), m.size());
+        // round 2: the remaining iterator/pointer observers (non-const overloads of cbegin/cend, data() const, begin()==data())
+        cx.eq("C01", subj, "iterators", "nonconst cend()-cbegin()", std::size_t(v.cend() - v.cbegin()), m.size());
+        cx.eq("C01", subj, "iterators", "begin()==data()", static_cast<void const*>(v.begin()) == static_cast<void const*>(v.data()), true);
+        cx.eq("C01", subj, "iterators", "const begin()==const data()", static_cast<void const*>(cv.begin()) == static_cast<void const*>(cv.data()), true);
+        cx.eq("C01", subj, "iterators", "cbegin()==data()", static_cast<void const*>(v.cbegin()) == static_cast<void const*>(cv.data()), true);
+        cx.eq("C01", subj, "iterators", "rbegin().base()==end()", static_cast<void const*>(v.rbegin().base()) == static_cast<void const*>(v.end()), true);
+        cx.eq("C01", subj, "iterators", "rend().base()==begin()", static_cast<void const*>(v.rend().base()) == static_cast<void const*>(v.begin()), true);
+        cx.eq("C01", subj, "iterators", "rbegin()==rend() iff empty", v.rbegin() == v.rend(), m.empty());
+        observe_alignment(st, cx, subj);
         if (m.empty()) { return; }
         cx.eq("C01", subj, "front", "front()", value_of(cv.front()), m.front());
         cx.eq("C01", subj, "back", "back()", value_of(cv.back()), m.back());
         cx.eq("C01", subj, "front", "&front()==data()", static_cast<void const*>(&v.front()), static_cast<void const*>(v.data()));
         cx.eq("C01", subj, "back", "&back()==data()+size-1", static_cast<void const*>(&v.back()), static_cast<void const*>(v.data() + m.size() - 1));
+        cx.eq("C01", subj, "front", "&const front()==data()", static_cast<void const*>(&cv.front()) == static_cast<void const*>(cv.data()), true);
+        cx.eq("C01", subj, "back", "&const back()==data()+size-1", static_cast<void const*>(&cv.back()) == static_cast<void const*>(cv.data() + m.size() - 1), true);
+        {
+            // non-const reverse iteration (the const overloads follow below)
+            auto mi       = m.rbegin();
+            std::size_t k = 0;
+            for (auto it = v.rbegin(); it != v.rend(); ++it, ++mi, ++k) {
+                if (k >= m.size() || value_of(*it) != *mi || static_cast<void const*>(&*it) != static_cast<void const*>(v.data() + (m.size() - 1 - k))) {
+                    cx.fail("C01", subj, "reverse-iteration", "non-const rbegin..rend differs from the reversed model");
+                    break;
+                }
+            }
+            if (k != m.size()) { cx.fail("C01", subj, "reverse-iteration", cat("non-const rbegin..rend visited ", k, " elements, model has ", m.size())); }
+        }
         for (std::size_t i = 0; i < m.size(); ++i) {
             cx.eq("C01", subj, "operator[]", "operator[]", value_of(cv[i]), m[i]);
             cx.eq("C01", subj, "operator[]", "&operator[]", static_cast<void const*>(&v[i]), static_cast<void const*>(v.data() + i));
@@ -724,12 +1186,31 @@ struct StaticVectorSys {
         }
     }
 
+    // round 2: address alignment of the element storage.  A second object with the same content is built at the LEAST
+    // aligned address its type admits (offset alignof(V) inside a 64-byte aligned block): if the container's own alignment
+    // requirement is weaker than its element's, data() is misaligned there (std::vector's storage is always aligned for T)
+    void observe_alignment(State const& st, Cx& cx, std::string const& subj) const
+    {
+        static_assert(alignof(V) <= 64);
+        if constexpr (N > 0) {
+            alignas(64) unsigned char scratch[sizeof(V) + 64];
+            std::memset(scratch, 0x5A, sizeof scratch);
+            V* w = ::new (static_cast<void*>(scratch + alignof(V))) V;
+            for (int x : st.m) { w->emplace_back(x); }
+            auto const mis = reinterpret_cast<std::uintptr_t>(w->data()) % alignof(T);
+            if (mis != 0) { cx.fail("C01", subj, "alignment", cat("data() is not aligned for the element type: address % ", alignof(T), " = ", mis, " (alignof(container) = ", alignof(V), ")")); }
+            if (sizeof(T) % alignof(T) != 0) { cx.fail("C01", subj, "alignment", "element stride is not a multiple of the alignment"); }
+            if (mis == 0) { same(cx, subj, *w, st.m, "second object at the least aligned address"); }
+            w->~V();
+        }
+    }
+
     std::string key(State const& st) const
     {
         std::string k;
         for (int x : st.m) { k += char('0' + x); }
         k += '|';
-        if constexpr (trivial) {
+        if constexpr (raw_key) {
             k.append(reinterpret_cast<char const*>(st.v), sizeof(V));
         } else {
             k += obs(st);
@@ -768,9 +1249,10 @@ struct InplaceVectorSys {
     using M      = std::vector<int>;
     using Action = ::Action;
     static constexpr bool trivial = std::is_trivially_copyable_v<T>;
+    static constexpr bool raw_key = trivial && std::has_unique_object_representations_v<T>;
 
     struct State {
-        alignas(16) unsigned char buf[sizeof(V) + 32];
+        alignas(alignof(V) > 16 ? alignof(V) : 16) unsigned char buf[sizeof(V) + 32];
         V* v;
         M m;
         bool dead{false};
@@ -795,7 +1277,11 @@ struct InplaceVectorSys {
     std::string name() const { return cat("inplace_vector<", tname<T>(), ",", N, ">"); }
     std::string family() const { return "inplace_vector"; }
     std::string show(Action const& a) const { return show_action(a); }
-    std::string subject(Action const& a) const { return cat("inplace_vector::", kind_name(a.k)); }
+    std::string subject(Action const& a) const
+    {
+        if (a.k == write_k) { return cat("inplace_vector::", accessor_name(a.a), " (written through)"); }
+        return cat("inplace_vector::", kind_name(a.k));
+    }
 
     void unary(State const& st, std::vector<Action>& out) const
     {
@@ -825,6 +1311,39 @@ struct InplaceVectorSys {
             if constexpr (copyable<T>) { out.push_back({copy_construct, 0, 0, 0}); }
             out.push_back({move_construct, 0, 0, 0});
         }
+        // ---- round 2: arities 0 and 2, aliasing arguments, write-through accessors ----
+        bool const sparse = N > 8;
+        auto const elems  = s > 0 ? span_of(0, s - 1, sparse) : std::vector<int>{};
+        out.push_back({try_emplace_back_0, 0, 0, 0});
+        if (s < n) { out.push_back({unchecked_emplace_back_0, 0, 0, 0}); }
+        if constexpr (two_arg<T>) {
+            for (int x = 1; x <= K; ++x) {
+                out.push_back({try_emplace_back_2, x, 1, 0});
+                if (s < n) { out.push_back({unchecked_emplace_back_2, x, 1, 0}); }
+            }
+        }
+        if constexpr (copyable<T> && N > 0) {
+            for (int i : elems) {
+                // valid in every state: on a full vector the try_ forms return null and leave everything (incl. the argument) alone
+                out.push_back({try_push_back_own, i, 0, 0});
+                out.push_back({try_emplace_back_own, i, 0, 0});
+                if (s < n) {
+                    out.push_back({unchecked_push_back_own, i, 0, 0});
+                    out.push_back({unchecked_emplace_back_own, i, 0, 0});
+                }
+            }
+        }
+        if constexpr (N > 0) {
+            if (s > 0) {
+                for (int val = 1; val <= K; ++val) {
+                    out.push_back({write_k, 0, 0, val});
+                    out.push_back({write_k, 1, s - 1, val});
+                    for (int acc : {2, 3, 5}) {
+                        for (int i : elems) { out.push_back({write_k, acc, i, val}); }
+                    }
+                }
+            }
+        }
     }
     void binary(std::vector<Action>&) const { }
 
@@ -850,6 +1369,7 @@ struct InplaceVectorSys {
         M& m            = s.m;
         auto const subj = subject(a);
         bool const full = m.size() == N;
+        int pushed      = a.a; // value the model appends when the call succeeds
         auto check_try  = [&](T* r) {
             if (full) {
                 if (r != nullptr) { cx.fail("C01", subj, "try-on-full", "returned non-null on a full vector"); }
@@ -857,8 +1377,12 @@ struct InplaceVectorSys {
                 if (r != v.data() + m.size()) {
                     cx.fail("C01", subj, "return", "returned pointer is not the address of the new last element");
                 }
-                m.push_back(a.a);
+                m.push_back(pushed);
             }
+        };
+        auto check_ref = [&](T& r) {
+            if (&r != v.data() + m.size()) { cx.fail("C01", subj, "return", "reference is not the new last element"); }
+            m.push_back(pushed);
         };
         if (s.broken && a.k != reinit_value) { return; }
         switch (a.k) {
@@ -916,6 +1440,94 @@ struct InplaceVectorSys {
             if constexpr (N > 0) {
                 v.pop_back();
                 m.pop_back();
+            }
+            break;
+        }
+        // ---------------- round 2 ----------------
+        case bulk_fill: {
+            if constexpr (N > 0) {
+                for (int i = 0; i < a.a; ++i) {
+                    (void)v.unchecked_emplace_back(1 + i % 2);
+                    m.push_back(1 + i % 2);
+                }
+            }
+            break;
+        }
+        case try_emplace_back_0: {
+            pushed = 0;
+            T* r   = v.try_emplace_back();
+            check_try(r);
+            break;
+        }
+        case try_emplace_back_2: {
+            if constexpr (two_arg<T>) {
+                pushed = a.a + 4 * a.b;
+                T* r   = v.try_emplace_back(a.a, a.b);
+                check_try(r);
+            }
+            break;
+        }
+        case unchecked_emplace_back_0: {
+            if constexpr (N > 0) {
+                pushed = 0;
+                T& r   = v.unchecked_emplace_back();
+                check_ref(r);
+            }
+            break;
+        }
+        case unchecked_emplace_back_2: {
+            if constexpr (two_arg<T> && N > 0) {
+                pushed = a.a + 4 * a.b;
+                T& r   = v.unchecked_emplace_back(a.a, a.b);
+                check_ref(r);
+            }
+            break;
+        }
+        case try_push_back_own:
+        case try_emplace_back_own:
+        case unchecked_push_back_own:
+        case unchecked_emplace_back_own: {
+            if constexpr (copyable<T> && N > 0) {
+                pushed       = m[std::size_t(a.a)]; // copy of the aliased value, taken before the call
+                T const& own = v[std::size_t(a.a)];
+                if (a.k == try_push_back_own) {
+                    T* r = v.try_push_back(own);
+                    check_try(r);
+                } else if (a.k == try_emplace_back_own) {
+                    T* r = v.try_emplace_back(own);
+                    check_try(r);
+                } else if (a.k == unchecked_push_back_own) {
+                    T& r = v.unchecked_push_back(own);
+                    check_ref(r);
+                } else {
+                    T& r = v.unchecked_emplace_back(own);
+                    check_ref(r);
+                }
+            }
+            break;
+        }
+        case write_k: {
+            if constexpr (N > 0) {
+                std::size_t const i = std::size_t(a.b);
+                T* target           = nullptr;
+                switch (a.a) {
+                case 0: target = &v.front(); break;
+                case 1: target = &v.back(); break;
+                case 2: target = &v[i]; break;
+                case 3: {
+                    auto it = v.begin();
+                    it += a.b;
+                    target = &*it;
+                    break;
+                }
+                default: target = v.data() + i; break;
+                }
+                if (target != v.data() + i) {
+                    cx.fail("C01", subj, "reference", cat("the returned reference is not element ", i, " of ", m.size()));
+                    return;
+                }
+                *target = T(a.c);
+                m[i]    = a.c;
             }
             break;
         }
@@ -996,11 +1608,40 @@ struct InplaceVectorSys {
         cx.eq("C01", subj, "size", "size()", cv.size(), m.size());
         cx.eq("C01", subj, "empty", "empty()", cv.empty(), m.empty());
         cx.eq("C01", subj, "iterators", "end()-begin()", std::size_t(cv.end() - cv.begin()), m.size());
+        // round 2: non-const begin/end, data() const, capacity observers, alignment
+        cx.eq("C01", subj, "iterators", "nonconst end()-begin()", std::size_t(v.end() - v.begin()), m.size());
+        cx.eq("C01", subj, "iterators", "begin()==data()", static_cast<void const*>(v.begin()) == static_cast<void const*>(v.data()), true);
+        cx.eq("C01", subj, "iterators", "const begin()==const data()", static_cast<void const*>(cv.begin()) == static_cast<void const*>(cv.data()), true);
+        cx.eq("C01", subj, "capacity", "capacity()", cv.capacity(), N);
+        cx.eq("C01", subj, "max_size", "max_size()", cv.max_size(), N);
+        if constexpr (N > 0) {
+            static_assert(alignof(V) <= 64);
+            alignas(64) unsigned char scratch[sizeof(V) + 64];
+            std::memset(scratch, 0x5A, sizeof scratch);
+            V* w = ::new (static_cast<void*>(scratch + alignof(V))) V{};
+            for (int x : m) { (void)w->try_emplace_back(x); }
+            auto const mis = reinterpret_cast<std::uintptr_t>(w->data()) % alignof(T);
+            if (mis != 0) { cx.fail("C01", subj, "alignment", cat("data() is not aligned for the element type: address % ", alignof(T), " = ", mis, " (alignof(container) = ", alignof(V), ")")); }
+            if (mis == 0) { same(cx, subj, *w, m, "second object at the least aligned address"); }
+            w->~V();
+        }
         if constexpr (N > 0) {
             if (m.empty()) { return; }
             cx.eq("C01", subj, "front", "front()", value_of(cv.front()), m.front());
             cx.eq("C01", subj, "back", "back()", value_of(cv.back()), m.back());
             cx.eq("C01", subj, "front", "&front()==data()", static_cast<void const*>(&v.front()), static_cast<void const*>(v.data()));
+            cx.eq("C01", subj, "back", "&back()==data()+size-1", static_cast<void const*>(&v.back()) == static_cast<void const*>(v.data() + m.size() - 1), true);
+            cx.eq("C01", subj, "front", "&const front()==data()", static_cast<void const*>(&cv.front()) == static_cast<void const*>(cv.data()), true);
+            cx.eq("C01", subj, "back", "&const back()==data()+size-1", static_cast<void const*>(&cv.back()) == static_cast<void const*>(cv.data() + m.size() - 1), true);
+            {
+                std::size_t k = 0;
+                for (auto it = cv.begin(); it != cv.end(); ++it, ++k) {
+                    if (k >= m.size() || value_of(*it) != m[k]) {
+                        cx.fail("C01", subj, "iteration", "begin..end differs from the model");
+                        break;
+                    }
+                }
+            }
             for (std::size_t i = 0; i < m.size(); ++i) {
                 cx.eq("C01", subj, "operator[]", "operator[]", value_of(cv[i]), m[i]);
                 cx.eq("C01", subj, "operator[]", "&operator[]", static_cast<void const*>(&v[i]), static_cast<void const*>(v.data() + i));
@@ -1016,7 +1657,7 @@ struct InplaceVectorSys {
         std::string k;
         for (int x : st.m) { k += char('0' + x); }
         k += '|';
-        if constexpr (trivial) {
+        if constexpr (raw_key) {
             k.append(reinterpret_cast<char const*>(st.v), sizeof(V));
         } else {
             k += obs(st);
@@ -1052,14 +1693,19 @@ struct InplaceVectorSys {
 // =======================================================================================
 // stack<T, static_vector<T,N>>
 // =======================================================================================
-template <typename T, std::size_t N, int K>
+template <typename T, std::size_t N, int K, bool OnInplace = false>
 struct StackSys {
-    using V      = etl::stack<T, etl::static_vector<T, N>>;
+    // round 2: the second container the adaptor accepts is inplace_vector - it has back/pop_back/size/empty but no
+    // push_back/emplace_back, no assignment (so no swap) and no comparison operators: such a stack can be constructed
+    // from a container, observed, written through top() and popped; push/emplace/swap/relational operators are API gaps
+    using C      = std::conditional_t<OnInplace, etl::inplace_vector<T, N>, etl::static_vector<T, N>>;
+    using V      = etl::stack<T, C>;
     using M      = std::vector<int>; // top = back
     using Action = ::Action;
+    static_assert(std::is_same_v<decltype(etl::stack(std::declval<C>())), V>, "deduction guide stack(Container)");
 
     struct State {
-        alignas(16) unsigned char buf[sizeof(V) + 32];
+        alignas(alignof(V) > 16 ? alignof(V) : 16) unsigned char buf[sizeof(V) + 32];
         V* v;
         M m;
         bool dead{false};
@@ -1079,7 +1725,7 @@ struct StackSys {
         void const* hi() const { return buf + sizeof buf; }
     };
 
-    std::string name() const { return cat("stack<", tname<T>(), ",static_vector<", N, ">>"); }
+    std::string name() const { return cat("stack<", tname<T>(), OnInplace ? ",inplace_vector<" : ",static_vector<", N, ">>"); }
     std::string family() const { return "stack"; }
     std::string show(Action const& a) const { return show_action(a); }
     std::string subject(Action const& a) const
@@ -1088,32 +1734,77 @@ struct StackSys {
         case push_back_l: return "stack::push(const&)";
         case push_back_r: return "stack::push(&&)";
         case emplace_back_k: return "stack::emplace";
+        case emplace_back_0: return "stack::emplace()";
         case pop_back_k: return "stack::pop";
+        case write_k: return "stack::top() (written through)";
         default: return cat("stack::", kind_name(a.k));
         }
     }
+    static constexpr int ctor_pool_len = N < 3 ? int(N) : 3;
     void unary(State const& st, std::vector<Action>& out) const
     {
         int const s = int(st.m.size());
-        for (int v = 1; v <= K; ++v) {
-            if (s < int(N)) {
-                if constexpr (copyable<T>) { out.push_back({push_back_l, v, 0, 0}); }
-                out.push_back({push_back_r, v, 0, 0});
-                out.push_back({emplace_back_k, v, 0, 0});
+        if constexpr (!OnInplace) {
+            for (int v = 1; v <= K; ++v) {
+                if (s < int(N)) {
+                    if constexpr (copyable<T>) { out.push_back({push_back_l, v, 0, 0}); }
+                    out.push_back({push_back_r, v, 0, 0});
+                    out.push_back({emplace_back_k, v, 0, 0});
+                }
             }
         }
-        if (s > 0) { out.push_back({pop_back_k, 0, 0, 0}); }
+        if constexpr (N > 0) {
+            if (s > 0) { out.push_back({pop_back_k, 0, 0, 0}); }
+        }
         if constexpr (copyable<T>) { out.push_back({copy_construct, 0, 0, 0}); }
         out.push_back({move_construct, 0, 0, 0});
-        if constexpr (sv_move_assignable<T>) { out.push_back({self_swap, 0, 0, 0}); }
+        if constexpr (!OnInplace) {
+            if constexpr (sv_move_assignable<T>) {
+                out.push_back({self_swap, 0, 0, 0});
+                out.push_back({self_swap_free, 0, 0, 0});
+            }
+            // round 2: arity 0, aliasing arguments
+            if (s < int(N)) {
+                out.push_back({emplace_back_0, 0, 0, 0});
+                if constexpr (copyable<T>) {
+                    if (s > 0) {
+                        out.push_back({stack_push_top, 0, 0, 0});
+                        out.push_back({stack_emplace_top, 0, 0, 0});
+                    }
+                }
+            }
+        }
+        // round 2: construction from a container (copy and move), assignment through top()
+        auto const& pl = pool(K, ctor_pool_len);
+        for (int i = 0; i < int(pl.size()); ++i) {
+            if constexpr (copyable<T>) { out.push_back({stack_ctor_copy, i, 0, 0}); }
+            out.push_back({stack_ctor_move, i, 0, 0});
+        }
+        if constexpr (N > 0) {
+            if (s > 0) {
+                for (int v = 1; v <= K; ++v) { out.push_back({write_k, 0, 0, v}); }
+            }
+        }
     }
     void binary(std::vector<Action>& out) const
     {
-        if constexpr (sv_move_assignable<T>) {
-            out.push_back({swap_member, 0, 0, 0});
-            out.push_back({swap_free, 0, 0, 0});
+        if constexpr (!OnInplace) {
+            if constexpr (sv_move_assignable<T>) {
+                out.push_back({swap_member, 0, 0, 0});
+                out.push_back({swap_free, 0, 0, 0});
+            }
+            out.push_back({relational, 0, 0, 0});
         }
-        out.push_back({relational, 0, 0, 0});
+    }
+    static void fill_container(C& c, std::vector<int> const& src)
+    {
+        for (int x : src) {
+            if constexpr (OnInplace) {
+                (void)c.try_emplace_back(x);
+            } else {
+                c.emplace_back(x);
+            }
+        }
     }
     // drains a copy (copyable T) to compare the whole content; otherwise top/size only
     void same(Cx& cx, std::string const& subj, V const& v, M const& m, char const* what) const
@@ -1145,7 +1836,7 @@ struct StackSys {
         bool check_other = false;
         switch (a.k) {
         case push_back_l: {
-            if constexpr (copyable<T>) {
+            if constexpr (copyable<T> && !OnInplace) {
                 T const x(a.a);
                 v.push(x);
                 m.push_back(a.a);
@@ -1153,26 +1844,87 @@ struct StackSys {
             break;
         }
         case push_back_r: {
-            T x(a.a);
-            v.push(std::move(x));
-            m.push_back(a.a);
+            if constexpr (!OnInplace) {
+                T x(a.a);
+                v.push(std::move(x));
+                m.push_back(a.a);
+            }
             break;
         }
         case emplace_back_k: {
-            v.emplace(a.a);
-            m.push_back(a.a);
+            if constexpr (!OnInplace) {
+                v.emplace(a.a);
+                m.push_back(a.a);
+            }
             break;
         }
         case pop_back_k: {
-            v.pop();
-            m.pop_back();
+            if constexpr (N > 0) {
+                v.pop();
+                m.pop_back();
+            }
+            break;
+        }
+        // ---------------- round 2 ----------------
+        case emplace_back_0: {
+            if constexpr (!OnInplace) {
+                v.emplace();
+                m.push_back(0);
+            }
+            break;
+        }
+        case stack_push_top:
+        case stack_emplace_top: {
+            if constexpr (!OnInplace && copyable<T>) {
+                int const val = m.back();
+                if (a.k == stack_push_top) {
+                    v.push(v.top());
+                } else {
+                    v.emplace(v.top());
+                }
+                m.push_back(val);
+            }
+            break;
+        }
+        case stack_ctor_copy:
+        case stack_ctor_move: {
+            auto const& src = pool(K, ctor_pool_len)[std::size_t(a.a)];
+            if (a.k == stack_ctor_copy && !copyable<T>) { break; }
+            {
+                C cont{};
+                fill_container(cont, src);
+                v.~V();
+                std::memset(s.buf, 0xAA, sizeof s.buf);
+                if (a.k == stack_ctor_copy) {
+                    if constexpr (copyable<T>) {
+                        s.v = ::new (static_cast<void*>(s.buf)) V(static_cast<C const&>(cont));
+                        // the source container keeps its content
+                        bool ok = cont.size() == src.size();
+                        for (std::size_t i = 0; ok && i < src.size(); ++i) { ok = value_of(cont.data()[i]) == src[i]; }
+                        if (!ok) { cx.fail("C01", subj, "source-modified", "stack(Container const&) changed the source container"); }
+                    }
+                } else {
+                    s.v = ::new (static_cast<void*>(s.buf)) V(std::move(cont));
+                    if (cont.size() > N) { cx.fail("C03", subj, "moved-from-invalid", cat("moved-from container size ", cont.size())); }
+                }
+            }
+            m = src;
+            break;
+        }
+        case write_k: {
+            if constexpr (N > 0) {
+                v.top() = T(a.c);
+                m.back() = a.c;
+            }
             break;
         }
         case copy_construct: {
             if constexpr (copyable<T>) {
                 V copy(v);
                 same(cx, subj, copy, m, "copy");
-                if (!copy.empty()) { copy.pop(); }
+                if constexpr (N > 0) {
+                    if (!copy.empty()) { copy.pop(); }
+                }
                 same(cx, subj, v, m, "source after mutating its copy");
             }
             break;
@@ -1191,8 +1943,16 @@ struct StackSys {
             t->~V();
             break;
         }
-        case self_swap: {
-            if constexpr (sv_move_assignable<T>) { v.swap(v); }
+        case self_swap:
+        case self_swap_free: {
+            if constexpr (sv_move_assignable<T> && !OnInplace) {
+                if (a.k == self_swap) {
+                    v.swap(v);
+                } else {
+                    using etl::swap;
+                    swap(v, v);
+                }
+            }
             if (v.size() != m.size() || (!m.empty() && value_of(v.top()) != m.back())) {
                 cx.fail("C03", subj, "self-swap-changes-value", cat("after swapping a stack with itself: size tetl=", v.size(), " before=", m.size()));
                 check_lifetimes<T>(cx, subj, s.lo(), s.hi(), v.size());
@@ -1202,7 +1962,7 @@ struct StackSys {
         }
         case swap_member:
         case swap_free: {
-            if constexpr (sv_move_assignable<T>) {
+            if constexpr (sv_move_assignable<T> && !OnInplace) {
                 if (a.k == swap_member) {
                     v.swap(*p->v);
                 } else {
@@ -1215,14 +1975,16 @@ struct StackSys {
             break;
         }
         case relational: {
-            V const& x = v;
-            V const& y = *p->v;
-            cx.eq("C01", subj, "==", "==", x == y, m == p->m);
-            cx.eq("C01", subj, "!=", "!=", x != y, m != p->m);
-            cx.eq("C01", subj, "<", "<", x < y, m < p->m);
-            cx.eq("C01", subj, "<=", "<=", x <= y, m <= p->m);
-            cx.eq("C01", subj, ">", ">", x > y, m > p->m);
-            cx.eq("C01", subj, ">=", ">=", x >= y, m >= p->m);
+            if constexpr (!OnInplace) {
+                V const& x = v;
+                V const& y = *p->v;
+                cx.eq("C01", subj, "==", "==", x == y, m == p->m);
+                cx.eq("C01", subj, "!=", "!=", x != y, m != p->m);
+                cx.eq("C01", subj, "<", "<", x < y, m < p->m);
+                cx.eq("C01", subj, "<=", "<=", x <= y, m <= p->m);
+                cx.eq("C01", subj, ">", ">", x > y, m > p->m);
+                cx.eq("C01", subj, ">=", ">=", x >= y, m >= p->m);
+            }
             break;
         }
         default: break;
@@ -1246,7 +2008,7 @@ struct StackSys {
         std::string k;
         for (int x : st.m) { k += char('0' + x); }
         k += '|';
-        if constexpr (std::is_trivially_copyable_v<T>) {
+        if constexpr (std::is_trivially_copyable_v<T> && std::has_unique_object_representations_v<T>) {
             k.append(reinterpret_cast<char const*>(st.v), sizeof(V));
         } else {
             k += obs(st);
@@ -1301,7 +2063,7 @@ void explore_boundary(mc::Reporter& r, std::size_t n, int fillKind, std::size_t 
     mc::ExploreLimits lim;
     lim.max_states          = 200000;
     lim.max_depth           = depth;
-    lim.max_partners        = 12;
+    lim.max_partners        = r.thorough() ? 40 : 12; // round 2: 12 -> 40 partner states in the thorough tier
     lim.poison_differential = false;
     mc::Explorer<Sys> ex(sys, r, lim);
     for (std::size_t fill : {n - 2, n - 1, n}) {
@@ -1317,6 +2079,7 @@ using TCM = mc::Tracked<mc::copy_move>;
 using TMO = mc::Tracked<mc::move_only>;
 using TCO = mc::Tracked<mc::copy_only>;
 using TTD = mc::Tracked<mc::trivial_default>;
+using TR3 = mc::Tracked<mc::rule3>;
 
 template <typename T, std::size_t N, int K>
 void add_sv(mc::Main& m, std::vector<std::string> tiers, int poolLen, std::size_t partners = 100000)
@@ -1333,32 +2096,74 @@ void add_iv(mc::Main& m, std::vector<std::string> tiers)
         [=](mc::Reporter& r) { explore<InplaceVectorSys<T, N, K>>(r, 3000000, 1000); });
 }
 template <typename T, std::size_t N>
-void add_boundary(mc::Main& m)
+void add_boundary(mc::Main& m, bool thoroughOnly = false)
 {
-    m.job(cat("static_vector<", tname<T>(), ",", N, ">/boundary"), {"quick", "thorough"}, [=](mc::Reporter& r) {
-        explore_boundary(r, N, emplace_back_k, r.thorough() ? 2 : 1, StaticVectorSys<T, N, 2>{1});
+    std::vector<std::string> const tiers = thoroughOnly ? std::vector<std::string>{"thorough"} : std::vector<std::string>{"quick", "thorough"};
+    constexpr bool huge                  = N > 1000; // 65535/65536: histories of N single steps per state do not fit; compact seeds
+    m.job(cat("static_vector<", tname<T>(), ",", N, ">/boundary"), tiers, [=](mc::Reporter& r) {
+        if constexpr (huge) {
+            // seed states built by three calls: N-2 / N-1 / N copies of 1, first and last element overwritten with 2
+            mc::ExploreLimits lim;
+            lim.max_states          = 200000;
+            lim.max_depth           = 1;
+            lim.max_partners        = 6;
+            lim.poison_differential = false;
+            StaticVectorSys<T, N, 2> sys{1};
+            mc::Explorer<StaticVectorSys<T, N, 2>> ex(sys, r, lim);
+            for (std::size_t fill : {N - 2, N - 1, N}) {
+                ex.seeds.push_back({Action{ctor_n_v, int(fill), 1, 0}, Action{write_k, 0, 0, 2}, Action{write_k, 2, int(fill - 1), 2}});
+            }
+            ex.run();
+            r.not_exhaustive("capacity at the size-type boundary: depth-bounded from seed states, not a closure");
+        } else {
+            explore_boundary(r, N, emplace_back_k, r.thorough() ? 2 : 1, StaticVectorSys<T, N, 2>{1});
+        }
     });
-    m.job(cat("inplace_vector<", tname<T>(), ",", N, ">/boundary"), {"quick", "thorough"}, [=](mc::Reporter& r) {
+    m.job(cat("inplace_vector<", tname<T>(), ",", N, ">/boundary"), tiers, [=](mc::Reporter& r) {
         std::vector<Action> pre{Action{reinit_value, 0, 0, 0}};
         mc::ExploreLimits lim;
         lim.max_states          = 200000;
-        lim.max_depth           = r.thorough() ? 3 : 2;
+        lim.max_depth           = huge ? 2 : (r.thorough() ? 3 : 2);
         lim.poison_differential = false;
         InplaceVectorSys<T, N, 2> sys;
         mc::Explorer<InplaceVectorSys<T, N, 2>> ex(sys, r, lim);
         for (std::size_t fill : {N - 2, N - 1, N}) {
             std::vector<Action> h = pre;
-            for (std::size_t i = 0; i < fill; ++i) { h.push_back(Action{unchecked_emplace_back_k, int(1 + i % 2), 0, 0}); }
+            if constexpr (huge) {
+                h.push_back(Action{bulk_fill, int(fill), 0, 0});
+            } else {
+                for (std::size_t i = 0; i < fill; ++i) { h.push_back(Action{unchecked_emplace_back_k, int(1 + i % 2), 0, 0}); }
+            }
             ex.seeds.push_back(std::move(h));
         }
         ex.run();
         r.not_exhaustive("capacity at the size-type boundary: depth-bounded from seed states, not a closure");
     });
 }
-template <typename T, std::size_t N, int K>
-void add_st(mc::Main& m, std::vector<std::string> tiers)
+// round 2 (direction 4): longer histories from the boundary seed states over the thin menu (thorough only)
+template <typename T, std::size_t N>
+void add_boundary_deep(mc::Main& m, std::size_t depth)
 {
-    m.job(cat("stack<", tname<T>(), ",", N, ">/k", K), tiers, [=](mc::Reporter& r) { explore<StackSys<T, N, K>>(r, 3000000, 1000); });
+    m.job(cat("static_vector<", tname<T>(), ",", N, ">/boundary-deep"), {"thorough"}, [=](mc::Reporter& r) {
+        r.note(cat("thin menu (positions/counts {0,size,N-size,N}, value 1, sources {} and {1}), all histories of length <= ", depth, " from the seeds N-2, N-1, N"));
+        explore_boundary(r, N, emplace_back_k, depth, StaticVectorSys<T, N, 2>{1, true});
+    });
+}
+template <typename T, std::size_t N, int K>
+void add_st(mc::Main& m, std::vector<std::string> tiers, std::size_t partners = 100000)
+{
+    m.job(cat("stack<", tname<T>(), ",", N, ">/k", K), tiers, [=](mc::Reporter& r) {
+        g_partner_cap = partners;
+        explore<StackSys<T, N, K>>(r, 3000000, 1000);
+    });
+}
+template <typename T, std::size_t N, int K>
+void add_st_iv(mc::Main& m, std::vector<std::string> tiers)
+{
+    m.job(cat("stack<", tname<T>(), ",inplace_vector<", N, ">>/k", K), tiers, [=](mc::Reporter& r) {
+        r.note("stack on inplace_vector: push/emplace/swap/relational operators do not compile (API gap); explored: construction from a container, top, pop, copy/move");
+        explore<StackSys<T, N, K, true>>(r, 3000000, 1000);
+    });
 }
 
 } // namespace
@@ -1378,8 +2183,8 @@ int main(int argc, char** argv)
     add_sv<int, 4, 2>(m, both, 2);
     add_sv<int, 3, 3>(m, th, 3);
     add_sv<int, 5, 2>(m, th, 3);
-    add_sv<int, 4, 3>(m, th, 2, 400);
-    add_sv<int, 6, 2>(m, th, 2, 300);
+    add_sv<int, 4, 3>(m, th, 2);          // round 2: binary actions over ALL pairs of the 1280 states (was: first 400)
+    add_sv<int, 6, 2>(m, th, 2, 1200);    // round 2: partner cap 300 -> 1200 (of 5103 states)
 #endif
 #if !defined(MC_PART) || MC_PART == 2
     add_sv<TCM, 0, 2>(m, both, 2);
@@ -1389,8 +2194,8 @@ int main(int argc, char** argv)
     add_sv<TCM, 4, 2>(m, both, 2);
     add_sv<TCM, 3, 3>(m, th, 3);
     add_sv<TCM, 5, 2>(m, th, 3);
-    add_sv<TCM, 4, 3>(m, th, 2, 400);
-    add_sv<TCM, 6, 2>(m, th, 2, 400);
+    add_sv<TCM, 4, 3>(m, th, 2);
+    add_sv<TCM, 6, 2>(m, th, 2);          // round 2: all pairs of the 1093 states (was: first 400)
 #endif
 #if !defined(MC_PART) || MC_PART == 3
     add_sv<TMO, 1, 2>(m, both, 2);
@@ -1413,7 +2218,7 @@ int main(int argc, char** argv)
     add_iv<TCO, 3, 2>(m, both);
     add_iv<int, 6, 3>(m, th);
     add_iv<TCM, 5, 3>(m, th);
-    add_iv<int, 8, 3>(m, th);
+    add_iv<int, 7, 3>(m, th); // round 2: was <int,8>/k3 - the widened menu (value 0, writes) takes that to 589825 states / 10 min
     add_iv<TMO, 5, 3>(m, th);
     add_iv<TCO, 5, 3>(m, th);
 
@@ -1421,7 +2226,8 @@ int main(int argc, char** argv)
     add_st<int, 3, 2>(m, both);
     add_st<TCM, 3, 2>(m, both);
     add_st<TMO, 3, 2>(m, both);
-    add_st<int, 5, 3>(m, th);
+    add_st<int, 4, 3>(m, th);       // round 2: all pairs
+    add_st<int, 5, 3>(m, th, 1500); // round 2: the widened menu (value 0, container constructors) gives 11343 states; binary actions over the first 1500
     add_st<TCM, 4, 3>(m, th);
 #endif
 #if !defined(MC_PART) || MC_PART == 5
@@ -1431,5 +2237,72 @@ int main(int argc, char** argv)
     add_boundary<TCM, 255>(m);
     add_boundary<TCM, 256>(m);
 #endif
+    // ---- round 2: sizeof(T) == 1 at the size-type boundary (quick pair; the rest is in part 9) ----
+#if !defined(MC_PART) || MC_PART == 5
+    add_boundary<unsigned char, 255>(m);
+    add_boundary<unsigned char, 256>(m);
+#endif
+    // ---- round 2: further element types (static_vector, inplace_vector), stack on inplace_vector ----
+#if !defined(MC_PART) || MC_PART == 6
+    add_sv<Arg2, 3, 2>(m, both, 2);
+    add_sv<Agg2, 2, 2>(m, both, 2);
+    add_sv<TR3, 3, 2>(m, both, 2);
+    add_sv<bool, 4, 1>(m, both, 3);
+    add_sv<unsigned char, 3, 2>(m, both, 2);
+    add_sv<ThrowMove, 3, 2>(m, both, 2);
+    add_sv<OverT, 3, 2>(m, both, 2);
+    add_sv<OverN, 3, 2>(m, both, 2);
+    add_sv<OverN, 1, 2>(m, both, 2);
+#endif
+#if !defined(MC_PART) || MC_PART == 7
+    add_iv<Arg2, 3, 2>(m, both);
+    add_iv<Agg2, 3, 2>(m, both);
+    add_iv<TR3, 3, 2>(m, both);
+    add_iv<ThrowMove, 3, 2>(m, both);
+    add_iv<OverT, 3, 2>(m, both);
+    add_iv<OverN, 3, 2>(m, both);
+    add_iv<OverN, 1, 2>(m, both);
+    add_iv<bool, 4, 1>(m, both);
+    add_iv<unsigned char, 3, 2>(m, both);
+
+    add_st_iv<int, 3, 2>(m, both);
+    add_st_iv<TCM, 3, 2>(m, both);
+    add_st_iv<TMO, 3, 2>(m, both);
+    add_st_iv<int, 0, 2>(m, both);
+    add_st<TR3, 3, 2>(m, both);
+    add_st<TCO, 3, 2>(m, both);
+    add_st<int, 0, 2>(m, both);
+#endif
+    // ---- round 2, thorough only: the new element types at the next capacity ----
+#if !defined(MC_PART) || MC_PART == 8
+    add_sv<Agg2, 3, 2>(m, th, 2);
+    add_sv<Arg2, 4, 2>(m, th, 2);
+    add_sv<TR3, 4, 2>(m, th, 2);
+    add_sv<bool, 6, 1>(m, th, 3);
+    add_sv<ThrowMove, 4, 2>(m, th, 2);
+    add_sv<OverN, 4, 2>(m, th, 2);
+    add_iv<Arg2, 5, 2>(m, th);
+    add_iv<TR3, 5, 3>(m, th);
+    add_iv<OverN, 5, 2>(m, th);
+    add_st_iv<TCM, 5, 3>(m, th);
+#endif
+    // ---- round 2, thorough only: sizeof(T) == 1 at the remaining size-type boundaries ----
+#if !defined(MC_PART) || MC_PART == 9
+    add_boundary<unsigned char, 254>(m, true);
+    add_boundary<unsigned char, 257>(m, true);
+    add_boundary<unsigned char, 65535>(m, true);
+    add_boundary<unsigned char, 65536>(m, true);
+#endif
+    // ---- round 2, thorough only: longer histories from the boundary seeds (thin menu) ----
+#if !defined(MC_PART) || MC_PART == 10
+    add_boundary_deep<int, 255>(m, 4);
+    add_boundary_deep<int, 256>(m, 4);
+    add_boundary_deep<unsigned char, 254>(m, 4);
+    add_boundary_deep<unsigned char, 257>(m, 4);
+    add_boundary_deep<TCM, 255>(m, 4);
+    add_boundary_deep<TCM, 256>(m, 4);
+#endif
+    // (Tracked<trivial_default> is not explored here: its default constructor is trivial, so T{} - resize(n), emplace_back() -
+    //  creates objects the lifetime registry never sees; every report would be an artefact of the instrumented type)
     return m.run();
 }
